@@ -265,3 +265,47 @@ Proof.
   - intros _. split; intros e'; discriminate.
   - reflexivity.
 Qed.
+
+(* ---- ties and slow callbacks: what the property allows when select's choice is open ---- *)
+Lemma nd_outcomes_pf : forall W cbd ncb arr now dl r,
+  In r (wait_nd W cbd ncb now dl arr) ->
+  exists pre rest,
+    arr = pre ++ rest /\ Forall (fun a => is_pre (snd a) = true) pre /\ l_cbs r = notes ncb pre /\
+    (l_out r = OTimeout \/
+     exists t0 p post, rest = (t0, p) :: post /\ is_pre p = false /\ l_out r = OResponse p).
+Proof.
+  intros W cbd ncb arr. induction arr as [| [t0 p] arr IH]; intros now dl r Hin.
+  - cbn in Hin. destruct Hin as [<- | []]. exists [], []. repeat split; [constructor | left; reflexivity].
+  - cbn [wait_nd] in Hin. apply in_app_or in Hin. destruct Hin as [Hin | Hin].
+    + destruct (Z.max now dl <=? Z.max now t0 + W); [| contradiction].
+      destruct Hin as [<- | []]. exists [], ((t0, p) :: arr).
+      repeat split; [constructor | left; reflexivity].
+    + destruct (Z.max now t0 <=? Z.max now dl + W); [| contradiction].
+      destruct (is_pre p) eqn:Hp; cbn [negb] in Hin.
+      * destruct (pre_timeout p) as [d |] eqn:Hd; apply in_map_iff in Hin;
+          destruct Hin as (r' & <- & Hin'); apply IH in Hin';
+          destruct Hin' as (pre & rest & -> & Hall & Hcbs & Hout);
+          exists ((t0, p) :: pre), rest; (split; [reflexivity |]);
+          (split; [constructor; [exact Hp | exact Hall] |]);
+          (split; [| exact Hout]); cbn [wrap_taken l_cbs notes flat_map snd]; unfold note at 1; rewrite Hd;
+          fold (notes ncb pre); rewrite Hcbs; reflexivity.
+      * destruct Hin as [<- | []]. exists [], ((t0, p) :: arr).
+        repeat split; [constructor |]. right. exists t0, p, arr. repeat split. exact Hp.
+Qed.
+
+(* the tie rule of [wait] (the timer wins) picks one of the allowed results *)
+Lemma det_in_nd_pf : forall W ncb arr now dl,
+  0 <= W -> In (wait ncb now dl arr) (wait_nd W 0 ncb now dl arr).
+Proof.
+  intros W ncb arr. induction arr as [| [t0 p] arr IH]; intros now dl HW.
+  - left. reflexivity.
+  - cbn [wait wait_nd]. apply in_or_app.
+    destruct (Z.leb_spec dl (Z.max now t0)) as [Hle | Hlt].
+    + left. destruct (Z.leb_spec (Z.max now dl) (Z.max now t0 + W)) as [_ | H]; [left; reflexivity | lia].
+    + right. destruct (Z.leb_spec (Z.max now t0) (Z.max now dl + W)) as [_ | H]; [| lia].
+      destruct (is_pre p); cbn [negb]; [| left; reflexivity].
+      destruct (pre_timeout p) as [d |]; apply in_map_iff.
+      * exists (wait ncb (Z.max now t0) (Z.max now t0 + d) arr). split; [reflexivity |].
+        rewrite Z.mul_0_r, Z.add_0_r. apply IH. exact HW.
+      * exists (wait ncb (Z.max now t0) dl arr). split; [reflexivity |]. apply IH. exact HW.
+Qed.
